@@ -4,16 +4,16 @@ import json, os
 HERE = os.path.dirname(os.path.dirname(os.path.abspath(__file__)))
 BASE_TB = ("Trusted: Lean 4.33.0 kernel; axioms propext/Classical.choice/Quot.sound; the hand-written Lean model as a reading of the Rust, "
            "tied to /repo on every run by the correspondence harness (harness/ + lean/Driver.lean + ./check), whose generator bounds what it sees. ")
-CHECKS = {
- "C13": dict(
-   text="Machine-checked proof (Lean 4) that each of the 290 compiled per-bit circuits equals the RISC-V word operation for all 2^64 inputs, "
-        "with all indices in range and no read of an undefined slot; tables are regenerated from the Rust source by a translator on every run and "
-        "compared with the tables compiled into the crate; the evaluator semantics assumed by the model is tied by running the real homomorphic evaluator.",
-   note=BASE_TB + "Additionally: one bv_decide axiom per per-bit theorem (LRAT certificate checked natively by Lean's verified checker); tools/gen_circuits.py; "
-        "Cmux correctness (C04) for the step from ciphertexts to Booleans.",
-   technique="Lean 4 theorems over tables regenerated from source (translator) + bv_decide; hook-dump equality; differential run of the real evaluator",
-   design="§6 C13"),
-}
+def load_checks():
+    d = {}
+    mdir = os.path.join(HERE, "vlib", "manifest")
+    for f in sorted(os.listdir(mdir)):
+        if f.endswith(".json"):
+            c = json.load(open(os.path.join(mdir, f)))
+            c["note"] = BASE_TB + c.get("note", "")
+            d[f[:-5]] = c
+    return d
+CHECKS = load_checks()
 PENDING = {}
 ALL = ["C%02d" % i for i in range(1, 21)]
 def main():
